@@ -39,6 +39,33 @@ impl Model for Unbounded {
     }
 }
 
+/// `s -> s + 1`: an endless chain. The frontier is one state wide, so with several threads all
+/// workers but one are idle (waiting in the job market) when the timeout expires.
+#[derive(Clone)]
+pub struct Chain {
+    pub work_us: u64,
+}
+impl Model for Chain {
+    type State = u64;
+    type Action = u8;
+    fn init_states(&self) -> Vec<u64> {
+        vec![1]
+    }
+    fn actions(&self, _: &u64, a: &mut Vec<u8>) {
+        a.push(0);
+    }
+    fn next_state(&self, s: &u64, _: u8) -> Option<u64> {
+        let t0 = Instant::now();
+        while t0.elapsed() < Duration::from_micros(self.work_us) {
+            std::hint::spin_loop();
+        }
+        Some(s + 1)
+    }
+    fn properties(&self) -> Vec<Property<Self>> {
+        vec![Property::always("true", |_, _| true), Property::sometimes("never", |_, s| *s == 0)]
+    }
+}
+
 /// A finite model with `n` states (a grid-like graph).
 #[derive(Clone)]
 pub struct Finite {
@@ -105,6 +132,7 @@ pub fn child(args: &[String]) -> i32 {
     let timeout_ms: Option<u64> = args.get(3).and_then(|s| s.parse().ok());
     let v = match kind {
         "unbounded" => run(Unbounded { work_us: 20 }, strat, threads, timeout_ms, None),
+        "chain" => run(Chain { work_us: 20 }, strat, threads, timeout_ms, None),
         // simulation never exhausts: bound it by a target instead
         "finite" => run(Finite { n: 5000 }, strat, threads, timeout_ms, if strat == "simulation" { Some(20000) } else { None }),
         _ => return 2,
@@ -165,6 +193,9 @@ pub struct TimeoutCase {
     /// the timeout configured in the "unexpired" scenario (far longer than the run needs)
     #[serde(default = "far_away")]
     pub unexpired_ms: u64,
+    /// expiring scenario on the endless chain (idle workers at expiry) instead of the bushy model
+    #[serde(default)]
+    pub chain: bool,
 }
 fn far_away() -> u64 {
     600_000
@@ -191,8 +222,8 @@ impl SubCheck for Timeouts {
         0
     }
     fn strategy(&self, _tier: Tier) -> BoxedStrategy<TimeoutCase> {
-        (prop_oneof![Just("bfs"), Just("dfs"), Just("on_demand"), Just("simulation")], prop_oneof![Just(1usize), Just(2usize), Just(4usize)], any::<bool>(), prop_oneof![3 => 150u64..450, 1 => 1050u64..2300], prop_oneof![Just(600_000u64), Just(30_000u64), Just(2_500u64), Just(950u64)])
-            .prop_map(|(s, threads, expiring, timeout_ms, unexpired_ms)| TimeoutCase { strat: s.to_string(), threads, expiring, timeout_ms, unexpired_ms })
+        (prop_oneof![Just("bfs"), Just("dfs"), Just("on_demand"), Just("simulation")], prop_oneof![Just(1usize), Just(2usize), Just(4usize)], any::<bool>(), prop_oneof![3 => 150u64..450, 1 => 1050u64..2300], prop_oneof![Just(600_000u64), Just(30_000u64), Just(2_500u64), Just(950u64)], proptest::bool::weighted(0.4))
+            .prop_map(|(s, threads, expiring, timeout_ms, unexpired_ms, chain)| TimeoutCase { strat: s.to_string(), threads, expiring, timeout_ms, unexpired_ms, chain: chain && expiring })
             .boxed()
     }
     fn check(&self, c: &TimeoutCase, cov: &mut Cov) -> Result<(), Fail> {
@@ -205,7 +236,7 @@ impl SubCheck for Timeouts {
             // processes and reported only if all agree
             let mut late = vec![];
             for _ in 0..3 {
-                match spawn_child(&["unbounded", &c.strat, &th, &to], limit) {
+                match spawn_child(&[if c.chain { "chain" } else { "unbounded" }, &c.strat, &th, &to], limit) {
                     ChildOutcome::Done(v, _) => {
                         let e = v["elapsed_ms"].as_u64().unwrap_or(0);
                         ensure!(e >= c.timeout_ms.saturating_sub(50) || v["unique"].as_u64().unwrap_or(0) == 0, "c12/timeout/stopped-before-expiry", "{} with {} thread(s) and a {} ms timeout on an unbounded model returned after {} ms", c.strat, c.threads, c.timeout_ms, e);
@@ -216,10 +247,11 @@ impl SubCheck for Timeouts {
                     ChildOutcome::Broken(e) => fail!("inconclusive/child-process", "{}", e),
                 }
             }
-            ensure!(late.len() < 3, format!("c12/timeout/not-stopped-after-expiry/{}{}", c.strat, if c.threads == 1 { "/single-thread" } else { "" }), "{} with {} thread(s): a {} ms timeout did not stop the check of an unbounded model within {} ms after expiry (3 fresh processes, killed after {:?} ms)", c.strat, c.threads, c.timeout_ms, STOP_MARGIN_MS, late);
+            ensure!(late.len() < 3, format!("c12/timeout/not-stopped-after-expiry/{}{}", c.strat, if c.threads == 1 { "/single-thread" } else { "" }), "{} with {} thread(s): a {} ms timeout did not stop the check of an unbounded {} model within {} ms after expiry (3 fresh processes, killed after {:?} ms)", c.strat, c.threads, c.timeout_ms, if c.chain { "chain-shaped (idle workers)" } else { "bushy" }, STOP_MARGIN_MS, late);
             cov.label("expiring_timeout");
             cov.label(&format!("expiring/{}", c.strat));
             cov.label_if(c.threads == 1, "expiring/single_thread");
+            cov.label_if(c.chain && c.threads > 1, "expiring/idle_workers_at_expiry");
             cov.nontrivial(c);
         } else {
             // finite model with and without a (far away) timeout: same results, comparable time
@@ -273,5 +305,36 @@ impl SubCheck for Timeouts {
     }
     fn mandatory(&self) -> Vec<&'static str> {
         vec!["expiring_timeout", "unexpired_timeout", "expiring/single_thread"]
+    }
+}
+
+/// The expiring scenario on the endless chain only: with 2 or 4 threads all workers but one sit
+/// idle in the job market when the timeout closes it (which it does without a notification), and
+/// every one of them has to come back for `join` to return.
+pub struct IdleWorkersAtExpiry;
+impl SubCheck for IdleWorkersAtExpiry {
+    type Case = TimeoutCase;
+    fn name(&self) -> &'static str {
+        "timeout_with_idle_workers"
+    }
+    fn cases(&self, tier: Tier) -> u32 {
+        tier.pick(4, 24)
+    }
+    fn workers(&self) -> usize {
+        4
+    }
+    fn max_shrink_iters(&self) -> u32 {
+        0
+    }
+    fn strategy(&self, _tier: Tier) -> BoxedStrategy<TimeoutCase> {
+        (prop_oneof![Just("bfs"), Just("dfs"), Just("on_demand")], prop_oneof![Just(2usize), Just(4usize), Just(8usize)], 150u64..700)
+            .prop_map(|(s, threads, timeout_ms)| TimeoutCase { strat: s.to_string(), threads, expiring: true, timeout_ms, unexpired_ms: far_away(), chain: true })
+            .boxed()
+    }
+    fn check(&self, c: &TimeoutCase, cov: &mut Cov) -> Result<(), Fail> {
+        Timeouts.check(c, cov)
+    }
+    fn mandatory(&self) -> Vec<&'static str> {
+        vec!["expiring/idle_workers_at_expiry"]
     }
 }
